@@ -566,6 +566,21 @@ type KyDoc struct {
 	Audit KyAudit `gorm:"embedded;embeddedPrefix:au_"`
 }
 
+// ---- serjoin: the joined model has a field whose type is its own serializer ----
+type SjFirm struct {
+	ID   int64
+	Name string
+	Val  int64
+	Tag  SzSecret
+}
+type SjDoc struct {
+	ID       int64
+	Name     string
+	Val      int64
+	SjFirmID int64
+	SjFirm   *SjFirm
+}
+
 // ---- bad (protocol rounds only) ----
 type BadP struct {
 	ID   int64
@@ -710,6 +725,8 @@ func init() {
 		td[KyNote]("keyed", false),
 		td[KyBook]("keyed", false, hid(hm("Notes", "KyNote", "Ref"))),
 		td[KyDoc]("keyed", false, hid(bt("KyOwner", "KyOwner", "KyOwnerID"))),
+		td[SjFirm]("serjoin", false),
+		td[SjDoc]("serjoin", false, bt("SjFirm", "SjFirm", "SjFirmID")),
 	}
 	Families = map[string][]int{}
 	for i, f := range defs {
